@@ -285,8 +285,10 @@ def worker_shape(prog, an, rep):
                  (dotted(h.type) or '').rpartition('.')[2] in
                  ('Exception', 'BaseException')]
     rep.evaluated()
-    rep.check(len(catch_all) == 1 and t.handlers[-1] is catch_all[0] and
-              len(t.handlers) == 1, R, f.qname + ': one handler, catching '
+    # (more specific handlers may come first: each is held to the same
+    # rules below; what matters is that the last one takes everything)
+    rep.check(bool(catch_all) and t.handlers[-1] is catch_all[-1], R,
+              f.qname + ': the last handler catches '
               'Exception', f.where(t), 'handlers: %s -- an exception class '
               'outside them escapes and kills the worker' %
               [src(h.type) if h.type else 'bare' for h in t.handlers])
